@@ -408,6 +408,14 @@ fn run_shape<const D: usize>(dims: [usize; D], cx: &mut Cx) {
             if it != data {
                 cx.viol(&format!("construct_iter:{}", path), Json::obj().set("what", "iter() is not the row-major data").set("got", it).set("want", data.clone()));
             }
+            else {
+                // iter() through random scripts of Iterator calls (nth, by_ref adaptors, fold-based terminals)
+                let mut r = Rng::new(common::mix(&[0x7e50, len as u64, data[0] as u64, D as u64]));
+                cx.rep.inc("iterator_protocol_scripts");
+                if let Err(e) = common::iter_protocol(t.iter().cloned(), &data, &mut r, 8) {
+                    cx.viol(&format!("construct_iter_protocol:{}", path), Json::obj().set("what", "iter() seen through standard Iterator calls is not the row-major data").set("script", e));
+                }
+            }
             for (j, idx) in idxs.iter().enumerate() {
                 let got = call!(cx, "index", t[*idx]);
                 cx.rep.inc("index_probes");
@@ -431,9 +439,15 @@ fn run_shape<const D: usize>(dims: [usize; D], cx: &mut Cx) {
             }
         }
         for (path, t) in built.into_iter() {
+            let t2 = call!(cx, "clone", t.clone());
             let v: Vec<i64> = call!(cx, "into_iter", t.into_iter().collect());
             if v != data {
                 cx.viol(&format!("construct_into_iter:{}", path), Json::obj().set("got", v).set("want", data.clone()));
+            } else {
+                let mut r = Rng::new(common::mix(&[0x7e51, len as u64, data[0] as u64, D as u64]));
+                if let Err(e) = common::iter_protocol(t2.into_iter(), &data, &mut r, 8) {
+                    cx.viol(&format!("construct_into_iter_protocol:{}", path), Json::obj().set("what", "into_iter() seen through standard Iterator calls is not the row-major data").set("script", e));
+                }
             }
         }
     });
